@@ -252,7 +252,7 @@ func runConcDeadline(c *simkit.Choice, r *simkit.Rec) {
 	suite := gmSuites[c.Choose(2, simkit.LScen)]
 	// which call is parked, and which setter interrupts it
 	parkWrite := c.Bool(2, 3, simkit.LScen)
-	setter := c.Choose(2, simkit.LScen) // 0: the specific one (SetWriteDeadline / SetReadDeadline), 1: SetDeadline
+	setter := c.Choose(3, simkit.LScen) // 0: the specific one (SetWriteDeadline / SetReadDeadline), 1: SetDeadline, 2: Close (the other way to break a parked call)
 	past := c.Bool(1, 2, simkit.LScen)  // deadline already in the past, or a little ahead
 	wlen := []int{4096, 20000, 600}[c.Choose(3, simkit.LScen)]
 	window := c.Range(16, 400, simkit.LScen)
@@ -309,6 +309,8 @@ func runConcDeadline(c *simkit.Choice, r *simkit.Rec) {
 				}
 				var err error
 				switch {
+				case setter == 2:
+					cli.Close() // (its result depends on what it found in flight)
 				case setter == 1:
 					err = cli.SetDeadline(t)
 				case parkWrite:
@@ -355,6 +357,14 @@ func runConcDeadline(c *simkit.Choice, r *simkit.Rec) {
 	}
 	if setErrs.Load() != 0 {
 		r.Violate("result-differs", site, "a deadline setter returned an error on a healthy connection")
+		return
+	}
+	if setter == 2 {
+		if parkedErr == nil {
+			r.Violate("result-differs", site, fmt.Sprintf("the parked call returned (%d, nil) although the connection was closed under it", parkedN))
+			return
+		}
+		r.Outcome = "ok"
 		return
 	}
 	ne, ok := parkedErr.(net.Error)
